@@ -7,9 +7,9 @@ import Rpft.RowUnparse
 namespace Rpft.Row
 open Rpft
 
-/-- trimmed, template free, without the temporary character of `cleanse` -/
+/-- trimmed and template free -/
 def strOk (s : Str) : Bool :=
-  strip pyWs s == s && !s.contains '{' && !s.contains Cell.tmpC
+  strip pyWs s == s && !s.contains '{'
 
 def floatOk (s : Str) : Bool := pyFloatOk s && strOk s
 
@@ -34,7 +34,7 @@ def fieldOk (deep : Bool) : Ty → Val → Bool
   | _, _ => true
 
 mutual
-/-- `Representable`: strings trimmed / template free / without U+0001; inside lists no
+/-- `Representable`: strings trimmed / template free; inside lists no
 blank string, no empty list, no all-default record; an empty list, an all-default record
 and (inside sub-records) a blank string must be the field's default; record values list
 exactly the fields of their type. -/
